@@ -11,7 +11,7 @@ from vlib.lib import call
 PROPERTY = 'C15'
 RULE = ('non-tabulated running distances as bare numbers (every whole metre 20..12 000 in thorough / stride 5 in quick, then '
         'stride 7 (thorough) / 61 (quick) to 400 000 m, plus +-3 m around every tabulated distance and beyond both ends) and as '
-        'road spellings N[.dd]K and N[.dd]M over the same range; x gender x ages {35, 50, 72.5, 90, 100} x table years 2015 and '
+        'road spellings N[.dd]K and N[.dd]M over the same range; x gender x ages {5, 9, 13, 14, 19.5, 35, 47.25, 50, 61.75, 72.5, 83.1, 90, 100, 104} x table years 2015 and '
         '2023; oracle: brackets taken from the JSON km column independently of the library\'s scan (S / L = all running rows at '
         'the greatest tabulated distance below / smallest above): factor within [min f(S+L) - 1e-4, max f(S+L) + 1e-4], open best '
         'within [min best(S+L), max best(S+L)] and strictly increasing with distance over consecutive generated distances; '
@@ -23,7 +23,7 @@ ASSUMPTIONS = ['the distance a code denotes is computed by the check (N m, 1000 
                'the factor of the bracketing tabulated rows is obtained through the public function (decided by C14)']
 RULE = RULE + '; every whole kilometre / mile also written N.0 / N.00; ages include 47.25, 61.75, 83.1; interleaved histories include tabulated, field and raising calls'
 
-AGES = [35, 47.25, 50, 61.75, 72.5, 83.1, 90, 100]      # whole, half and other fractional ages
+AGES = [5, 9, 13, 14, 19.5, 35, 47.25, 50, 61.75, 72.5, 83.1, 90, 100, 104]      # across the table: whole, half and other fractional ages
 _tab = {}
 
 
@@ -87,6 +87,10 @@ def examine(case):
                 out.append(V('best-between-neighbours', ['best-outside-bracket'], case, bv,
                              {'below': [(r[0], r[2]) for r in S], 'above': [(r[0], r[2]) for r in L]}))
     for age in case.get('ages', AGES):
+        # an age counts where the tabulated neighbours themselves have a factor for it ("ages across the table")
+        refs = [row_factor(year, g, age, r[0]) for r in (S + L)]
+        if any(r[0] == 'exc' for r in refs):
+            continue
         f = call(athlib.wma_age_factor, g, age, code, year=year)
         c2 = dict(case, age=age)
         if f[0] == 'exc':
@@ -96,12 +100,9 @@ def examine(case):
         if not isinstance(fv, (int, float)) or not math.isfinite(fv) or fv <= 0:
             out.append(V('factor-defined', ['factor-not-finite-positive', where], c2, fv))
             break
-        refs = [row_factor(year, g, age, r[0]) for r in (S + L)]
-        if any(r[0] == 'exc' for r in refs):
-            continue
         vals = [r[1] for r in refs]
         if where == 'inside':
-            if not (min(vals) - 1e-4 <= fv <= max(vals) + 1e-4):
+            if not (min(vals) - 1e-9 <= fv <= max(vals) + 1e-9):
                 out.append(V('factor-between-neighbours', ['factor-outside-bracket'], c2, fv,
                              dict(zip([r[0] for r in S + L], vals))))
                 break
